@@ -789,9 +789,21 @@ func makeJobs(pc *propCfg, b *batch, tier string, seed uint64, batchNo, k, worke
 	}
 	for i := 0; i < n; i++ {
 		j := jobs[i%workers]
+		if pc.ID == "C20" && workers >= 2 {
+			// racesim: one worker process sees programs of one parity only (programs with an odd
+			// index run with the library's own logger, which a process installs once and for all)
+			half := workers / 2
+			j = jobs[(i%2)*half+(i/2)%half]
+		}
 		j.ProgIdx = append(j.ProgIdx, i)
 	}
-	return jobs
+	var used []*proto.Job
+	for _, j := range jobs {
+		if len(j.ProgIdx) != 0 {
+			used = append(used, j)
+		}
+	}
+	return used
 }
 
 func workerEnv(race bool, b *batch) []string {
